@@ -7,7 +7,9 @@ ROOT=$(cd "$(dirname "$0")/.." && pwd)
 WT=/tmp/seedrun/$ID
 rm -rf "$WT"; mkdir -p /tmp/seedrun
 git -C /repo worktree add --detach -q "$WT" || exit 2
-git -C "$WT" apply "$ROOT/seeded/$ID/patch.diff" || { echo "patch does not apply"; git -C /repo worktree remove --force "$WT"; exit 2; }
+# patch_rebased.diff: the same change re-made on top of later fix: commits that touched the same lines
+P="$ROOT/seeded/$ID/patch.diff"; [ -f "$ROOT/seeded/$ID/patch_rebased.diff" ] && P="$ROOT/seeded/$ID/patch_rebased.diff"
+git -C "$WT" apply "$P" || { echo "patch does not apply"; git -C /repo worktree remove --force "$WT"; exit 2; }
 cd "$ROOT" && VERIF_REPO="$WT" ./check "$PID" --tier "$TIER"; RC=$?
 git -C /repo worktree remove --force "$WT"
 # the library objects in build/ now correspond to the scratch tree; the next run against /repo rebuilds what differs
